@@ -166,6 +166,7 @@ def restore (c : Conn) (b : Bytes) : Conn × RestoreOut :=
 
 /-- `conn_disconnect` → `_reset_sm_state_for_reconnect` on the fields modelled here -/
 def disconnect (c : Conn) : Conn :=
-  { c with q := SendQueue.disconnect c.q, smSupport := false, resume := false, smId := none }
+  if !c.q.connected then c
+  else { c with q := SendQueue.disconnect c.q, smSupport := false, resume := false, smId := none }
 
 end Strophe.SmBlob
